@@ -282,3 +282,5 @@ package nsqadmin
 //@   ensures[two-goroutines] r5HWraps == old(r5HWraps) + 2
 //@   ensures[serve-loop-and-pump-started] setin(r5HWrapped, "(*github.com/nsqio/nsq/nsqadmin.NSQAdmin).Main$2") && setin(r5HWrapped, "(*github.com/nsqio/nsq/nsqadmin.NSQAdmin).handleAdminActions")
 //@   ensures[routes-registered] r5HRouteCount == old(r5HRouteCount) + 26
+//   (round 6, area K: frame - Main writes nothing that existed except these records; the program's Start$1 keeps its captured variable across the call)
+//@   modifies r5HRouteCount, r5HDecorations, r4EHCCalls, r5HWraps
